@@ -7,7 +7,7 @@ CONSTANTS
   AssignExprs <- AE
   CoefSets <- NoCoefs
   Origins <- NoOrigins
-  MaxDepth = 5
+  MaxDepth = 4
   Ops = {"write", "assign", "append", "resize", "faults"}
 VIEW View
 INVARIANT ShapeOK
